@@ -28,8 +28,13 @@ class LogList(list):
         self._log(x)
 
 
+REAL = [False]          # real-valued stream: times are not on the 1/64 grid and no model replay is made
+
+
 def tk(t):
     v = t * TICK
+    if REAL[0]:
+        return int(round(t * 1000000))
     assert abs(v - round(v)) < 1e-9, t
     return int(round(v))
 
@@ -60,6 +65,14 @@ def params(case):
 
 
 def run_impl(case):
+    REAL[0] = bool(case.get("real"))
+    try:
+        return _run_impl(case)
+    finally:
+        REAL[0] = False
+
+
+def _run_impl(case):
     """-> dict(ops=[model op tuples], obs=[per-op observation], items={i: times}, crash=None|str, states=[(t, state)])"""
     env = simpy.Environment()
     cv = build(case, env)
@@ -380,3 +393,61 @@ def gen_odd_length(rng):
     c["length"] = il * rng.choice([1.5, 2.5]) if il >= 1 else rng.choice([0.5, 1.5, 2.5])
     c["odd_length"] = True
     return c
+
+
+def gen_real_case(rng):
+    """irregular real-valued times and speeds (decimal, not representable exactly): implementation only"""
+    c = gen_case(rng)
+    c["real"] = True
+    if c["kind"] == "cont":
+        il = rng.choice([1, 1, 2])
+        c.update(item_length=il, speed=rng.choice([0.3, 0.7, 1.3, 1.9]), length=float(il * rng.choice([1, 2, 3, 4, 5])))
+    else:
+        c.update(delay=rng.choice([0.1, 0.3, 0.7, 1.3]))
+    prods = []
+    for g in c["producers"]:
+        if isinstance(g, dict):
+            g = dict(g); g["poll"] = rng.choice([0.1, 0.07, 0.3]); prods.append(g)
+        else:
+            prods.append([rng.choice([0, 0.1, 0.2, 0.3, 0.7, 1.3, 2.9]) for _ in g])
+    c["producers"] = prods
+    c["services"] = [rng.choice([0, 0, 0.1, 0.3, 1.7, 4.9]) for _ in c["services"]]
+    c["first_get"] = rng.choice([0, 0.3, 2.9, 7.1])
+    c["T"] = 60
+    return c
+
+
+def oracle_real(case, r, eps=1e-6):
+    """the C12 clauses with a tolerance, for the real-valued stream -> list of (property, clause, message)"""
+    V, items = [], r["items"]
+    if r["crash"]:
+        return [("C12", "crash", "run raised " + r["crash"])]
+    if case["kind"] == "cont":
+        u = case["item_length"] / case["speed"]; D = case["length"] / case["speed"]; cap = round(case["length"] / case["item_length"])
+    else:
+        u = case["delay"]; D = case["cap"] * case["delay"]; cap = case["cap"]
+    ids = sorted((i for i in items if "put" in items[i]), key=lambda i: (items[i]["put"], i))
+    got = [o[1] for o in r["ops"] if o[0] == "GET"]
+    put = [o[1] for o in r["ops"] if o[0] == "PUT"]
+    if got != put[:len(got)]:
+        V.append(("C12", "order", "items left in order %s but entered in order %s" % (got, put[:len(got)])))
+    occ = 0
+    for o in r["ops"]:
+        if o[0] == "PUT":
+            occ += 1
+            if occ > cap:
+                V.append(("C12", "capacity", "%d items on a belt that holds %d" % (occ, cap)))
+                break
+        elif o[0] == "GET":
+            occ -= 1
+    eager = all("out" in items[i] and abs(items[i]["out"] - items[i]["ready"]) < eps for i in ids if "ready" in items[i])
+    for n, i in enumerate(ids):
+        it = items[i]
+        if n > 0 and it["put"] - items[ids[n - 1]]["put"] < u - eps:
+            V.append(("C12", "spacing", "items %d and %d entered %s apart, less than one item length of travel (%s)" % (ids[n - 1], i, it["put"] - items[ids[n - 1]]["put"], u)))
+        if "ready" in it:
+            if it["ready"] < it["put"] + D - eps:
+                V.append(("C12", "min-travel", "item %d offered at %s, entered at %s: less than the belt travel time %s" % (i, it["ready"], it["put"], D)))
+            if eager and abs(it["ready"] - it["put"] - D) > eps:
+                V.append(("C12", "exact-travel", "destination takes every item at once, but item %d travelled %s instead of %s" % (i, it["ready"] - it["put"], D)))
+    return V
